@@ -17,6 +17,21 @@ import (
 // smtText renders one obligation as a complete SMT-LIB script. extra are
 // additional (get-value) terms.
 func (x *Exec) smtText(o *Obligation, getValues []*Term) string {
+	return x.smtTextMode(o, getValues, false)
+}
+
+// needsInst: the query has quantifiers (so the instantiated variant is worth trying first).
+func (x *Exec) needsInst(o *Obligation) bool {
+	seen := map[int]bool{}
+	for _, a := range x.assumes[:o.nAssume] {
+		if hasQuant(a, seen) {
+			return true
+		}
+	}
+	return hasQuant(o.goal, seen)
+}
+
+func (x *Exec) smtTextMode(o *Obligation, getValues []*Term, instantiate bool) string {
 	w := x.w
 	ts := w.ts
 	var roots []*Term
@@ -29,6 +44,22 @@ func (x *Exec) smtText(o *Obligation, getValues []*Term) string {
 		goal = ts.Not(o.goal)
 	}
 	roots = append(roots, goal)
+	if instantiate {
+		ic := &instCtx{ts: ts, cands: collectIndexTerms(roots, goal), ground: map[int][]*Term{}, gseen: map[int]bool{}}
+		for _, r := range roots {
+			ic.indexGround(r)
+		}
+		// first round only enriches the ground-term index with the instances' terms
+		pc0 := &proxyCtx{ic: ic, w: w, proxies: map[int]*Term{}, memo: map[int]*Term{}}
+		for _, r := range roots {
+			pc0.proxify(r)
+		}
+		pc := &proxyCtx{ic: ic, w: w, proxies: map[int]*Term{}, memo: map[int]*Term{}}
+		for i, r := range roots {
+			roots[i] = pc.proxify(r)
+		}
+		roots = append(roots, pc.axioms...)
+	}
 	roots = append(roots, getValues...)
 
 	var sb strings.Builder
@@ -234,10 +265,25 @@ func dischargeAll(results []*Result, outDir string, timeoutS int, workers int) m
 				lk := locks[j.r.Exec]
 				lk.Lock()
 				text := j.r.Exec.smtText(j.o, nil)
+				itext := ""
+				if !j.o.IsCover && j.r.Exec.needsInst(j.o) {
+					itext = j.r.Exec.smtTextMode(j.o, nil, true)
+				}
 				lk.Unlock()
 				file := filepath.Join(outDir, fmt.Sprintf("%04d_%s.smt2", j.idx, sanitize(j.o.Name)))
 				os.WriteFile(file, []byte(text), 0o644)
-				res := solveFile(file, timeoutS, nil)
+				var res SolveResult
+				if itext != "" {
+					ifile := strings.TrimSuffix(file, ".smt2") + ".inst.smt2"
+					os.WriteFile(ifile, []byte(itext), 0o644)
+					res = solveFile(ifile, timeoutS, nil)
+					if res.Status == "unsat" {
+						res.Solver += "+inst"
+					}
+				}
+				if res.Status != "unsat" {
+					res = solveFile(file, timeoutS, nil)
+				}
 				d := &Discharged{Obl: j.o, Res: res, File: file, Size: len(text)}
 				mu.Lock()
 				out[j.o] = d
